@@ -60,6 +60,8 @@ def cases(tier, seed):
     k = 0
     yield {"config": GUARD_PARAMS_CASE, "template": "pythonic-functional", "fc": 2, "events": [], "kinds": {}, "family": "guard-params"}
     yield {"config": MIXED_CASE_NAME, "template": "function-json", "fc": 1, "events": [], "kinds": {}, "family": "mixed-case-name"}
+    for t in TEMPLATES:
+        yield {"config": LEGACY_KEYS, "template": t, "fc": 1, "events": [], "kinds": {}, "family": "legacy-keys"}
     for c in M.gen_cases(seed * 1299709 + 1, n, max_nodes=6, features={"after": 0.3, "history": 0.3, "parallel": 0.3}):
         cfg = _identifiers(c["config"])
         fam = "plain"
@@ -80,6 +82,8 @@ def cases(tier, seed):
             yield {"config": cfg, "template": rng.choice(TEMPLATES[:3]), "fc": 2, "events": [], "kinds": {}, "family": "stately:" + f}
 
 
+LEGACY_KEYS = {"id": "m", "initial": "a", "context": {}, "states": {
+    "a": {"onEntry": ["hello"], "onExit": "bye", "on": {"GO": "b"}}, "b": {"onEntry": "hello"}}}
 MIXED_CASE_NAME = {"id": "m", "initial": "a", "context": {}, "states": {
     "a": {"on": {"GO": {"target": "b", "actions": ["send_HTTP_request"]}}}, "b": {}}}
 GUARD_PARAMS_CASE = {"id": "g", "initial": "a", "context": {}, "states": {
